@@ -5,7 +5,8 @@ from props import c04_lib as X
 
 PID = "C05"
 ENTRIES = {"xp": ("Expand.Entry", "entry_xp"), "xpspec": ("Expand.Entry", "entry_xpspec"),
-           "xpknown": ("Expand.Entry", "entry_xpknown")}
+           "xpknown": ("Expand.Entry", "entry_xpknown"), "brace": ("Expand.Entry", "entry_brace"),
+           "bspec": ("Expand.Entry", "entry_bspec")}
 TRUSTED = [
     "modelled, not verified: brush-core/src/expansion.rs (basic_expand, expand_word_piece, expand_parameter_expr arms "
     ":- - :+ + #, process_double_quoted_pieces, coalesce_expansions, split_fields, expand_pathnames_in_field), "
@@ -311,6 +312,179 @@ def evaluate(ctx, cases, bash_all=False, bash_sample=1500):
     return mism, specv, stats, svb, mfields, model
 
 
+# ---------------------------------------------------------------- brace expansion
+
+B_SEG = ["", "", "x", "pre", "-", "a*", ".", "$x", '"$y"', "é"]
+B_ALT = ["a", "b", "", "ab", "*", "?", "$x", '"$x"', "'q r'", '"a b"', "c", "1", "[ab]", "$e", "\\,"]
+B_SEQ = ["{1..3}", "{3..1}", "{1..10..3}", "{a..e}", "{e..a..2}", "{-1..1}", "{a..c..0}", "{5..5}", "{1..6..-2}",
+         "{01..03}", "{A..C}"]
+B_ODD = ["{a}", "{}", "{a,b", "\\{a,b}", '"{a,b}"', "${x}{a,b}", "{a,b}}", "{{a,b}", "a{,}b", "{,}", "{a,}", "{,a}"]
+
+
+def gen_group(rng, depth=0):
+    if rng.random() < 0.25:
+        return rng.choice(B_SEQ)
+    n = rng.choice([2, 2, 2, 3])
+    alts = []
+    for _ in range(n):
+        a = rng.choice(B_ALT)
+        if depth == 0 and rng.random() < 0.2:
+            a = a + gen_group(rng, 1) + rng.choice(["", "z"])
+        alts.append(a)
+    return "{" + ",".join(alts) + "}"
+
+
+def gen_brace_text(rng):
+    if rng.random() < 0.12:
+        return rng.choice(B_SEG) + rng.choice(B_ODD) + rng.choice(B_SEG)
+    t = rng.choice(B_SEG) + gen_group(rng)
+    if rng.random() < 0.35:
+        t += rng.choice(["", "-", "y"]) + gen_group(rng)
+    return t + rng.choice(B_SEG)
+
+
+def tree_tokens(js):
+    def nodes(l):
+        out = [str(len(l))]
+        for n in l:
+            if "Text" in n:
+                out += ["T", n["Text"]]
+            else:
+                ms = n["Expr"]
+                out += ["E", str(len(ms))]
+                for m in ms:
+                    if "NumberSequence" in m:
+                        x = m["NumberSequence"]
+                        out += ["n", str(x["start"]), str(x["end"]), str(x["increment"])]
+                    elif "CharSequence" in m:
+                        x = m["CharSequence"]
+                        out += ["c", x["start"], x["end"], str(x["increment"])]
+                    else:
+                        out += ["C"] + nodes(m["Child"])
+        return out
+    if js is None:
+        return ["N"]
+    return ["Y"] + nodes(js)
+
+
+def brace_known(c, products):
+    import re
+    if re.search(r"\{-?0\d+\.\.|\.\.-?0\d", c.text):
+        return "KF-C05-brace-zero-pad"
+    if c.ifs is not None and " " not in c.ifs and len(products) >= 2:
+        return "KF-C05-brace-ifs"
+    if any(p == "" for p in products):
+        return "KF-C05-brace-empty-word"
+    return None
+
+
+def evaluate_brace(ctx, n):
+    """brace words: text -> (real parser) tree -> model join -> (real parser) pieces -> model; spec: words of the
+    tree, each parsed and expanded on its own; bash on everything"""
+    import json
+    rng = ctx.rng
+    texts, envs = [], []
+    for _ in range(n):
+        texts.append(gen_brace_text(rng))
+        envs.append((gen_env(rng), rng.choice(IFSES), rng.choice(OPTSETS), rng.choice(DIRS)))
+    trees = []
+    for l in ctx.impl("bparse", [[t] for t in texts]):
+        f = core.dec_line(l)
+        try:
+            trees.append(json.loads(f[0]) if f and f[0] != "ERR" else None)
+        except ValueError:
+            trees.append(None)
+    toks = [tree_tokens(t) for t in trees]
+    joined = [core.dec_line(l)[0] if core.dec_line(l) else "" for l in ctx.model("brace", [["1", t] + k for t, k in zip(texts, toks)])]
+    swords = [core.dec_line(l) for l in ctx.model("bspec", [["1", t] + k for t, k in zip(texts, toks)])]
+    # parse the joined text and every specification word with the real parser
+    flat_sw = [(i, w) for i, ws in enumerate(swords) for w in ws]
+    plines = ctx.impl("wparse", [[j, ""] for j in joined] + [[w, ""] for _i, w in flat_sw])
+    mism, specv = [], []
+    stats = {"cases": n, "skipped_unsupported": 0, "model_checked": 0, "spec_checked": 0, "expanding": 0,
+             "code_ne_spec": 0}
+    cases, sub_idx = [], []
+    for i, t in enumerate(texts):
+        pieces = X.decode_parse(plines[i])
+        if pieces is None or any(p[0].startswith("?") or (p[0] == "P" and p[1][0].startswith("?")) or
+                                  (p[0] == "P" and p[1][0] in ("d", "a", "l")) for p in X.flat(pieces)):
+            stats["skipped_unsupported"] += 1
+            cases.append(None)
+            continue
+        (vars_, args), ifs, opts, names = envs[i]
+        c = X.Case("arg", pieces, ifs=ifs, opts=opts, args=args, vars=vars_, names=names, cmd_out=CMDS, arith=ARITH, tag="brace")
+        c.text = t
+        c.value = None
+        c.products = swords[i]
+        if joined[i] != t:
+            stats["expanding"] += 1
+        cases.append(c)
+    live = [i for i, c in enumerate(cases) if c is not None]
+    impl = ctx.impl("xp", [cases[i].impl_fields() for i in live])
+    model = ctx.model("xp", [cases[i].model_fields({}) for i in live])
+    # specification: every word on its own
+    spec_cases, owner = [], []
+    k = len(texts)
+    for (i, w) in flat_sw:
+        pl = plines[k]
+        k += 1
+        if cases[i] is None:
+            continue
+        pieces = X.decode_parse(pl)
+        c = cases[i]
+        if pieces is None or any(p[0].startswith("?") or (p[0] == "P" and p[1][0] in ("d", "a", "l")) for p in X.flat(pieces)):
+            c.spec_bad = True
+            continue
+        sc = X.Case("arg", pieces, ifs=c.ifs, opts=c.opts, args=c.args, vars=c.vars, names=c.names, cmd_out=CMDS, arith=ARITH)
+        spec_cases.append(sc.model_fields({}))
+        owner.append(i)
+    sres = ctx.model("xpspec", spec_cases)
+    spec_of = {}
+    for i, l in zip(owner, sres):
+        r = X.decode_result(l)
+        cur = spec_of.get(i, ("OK", []))
+        if cur[0] != "OK":
+            continue
+        spec_of[i] = ("OK", cur[1] + r[1]) if r[0] == "OK" else r
+    br = X.BashRunner()
+    try:
+        bres = br.run([cases[i] for i in live])
+    finally:
+        br.close()
+    svb = {"compared": 0, "spec_eq_bash": 0, "spec_ne_bash": 0, "code_eq_bash": 0, "code_ne_bash": 0, "spec_disagreements_with_bash": []}
+    for i, il, ml, b in zip(live, impl, model, bres):
+        c = cases[i]
+        cr, mr = X.decode_result(il), X.decode_result(ml)
+        sr = spec_of.get(i, ("OK", [])) if not getattr(c, "spec_bad", False) else ("UNSUPPORTED",)
+        if mr[0] == "BAD":
+            raise core.CheckBroken("brace model produced no result on %r" % c.text)
+        if mr[0] != "UNSUPPORTED":
+            stats["model_checked"] += 1
+            if mr != cr:
+                mism.append({"input": describe(c), "joined": joined[i], "code": cr, "model": mr})
+        if sr[0] != "UNSUPPORTED":
+            stats["spec_checked"] += 1
+            svb["compared"] += 1
+            zp = brace_known(c, c.products) == "KF-C05-brace-zero-pad"
+            if zp and sr != b:
+                # the parsed tree has lost the leading zero: the specification cannot see the padding
+                svb["spec_blind_zero_pad"] = svb.get("spec_blind_zero_pad", 0) + 1
+            else:
+                svb["spec_eq_bash" if sr == b else "spec_ne_bash"] += 1
+                if sr != b and len(svb["spec_disagreements_with_bash"]) < 20:
+                    svb["spec_disagreements_with_bash"].append({"input": describe(c), "spec": sr, "bash": b, "code": cr})
+            if sr != cr:
+                stats["code_ne_spec"] += 1
+        svb["code_eq_bash" if cr == b else "code_ne_bash"] += 1
+        if cr != b:
+            v = {"input": describe(c), "why": "bash gives %r, code gave %r (spec %r)" % (b, cr, sr)}
+            kf = brace_known(c, c.products) or classify(c, cr, b)
+            if kf:
+                v["known"] = kf
+            specv.append(v)
+    return mism, specv, stats, svb
+
+
 def describe(c):
     return {"ctx": c.ctx, "word": c.text, "ifs": c.ifs, "opts": c.opts, "args": c.args,
             "vars": [(n, v) for n, v in c.vars if n != "HOME"], "dir": c.names if len(c.names) < 8 else "DIRS[0]",
@@ -327,15 +501,24 @@ def run(ctx):
     bad = [j for j, v in zip(pick, ce) if v != model[j]]
     if bad:
         raise core.CheckBroken("extracted runner and vm_compute disagree on case %r" % (mfields[bad[0]],))
+    bm, bv, bstats, bsvb = evaluate_brace(ctx, 3000 if ctx.quick else 30000)
+    mism += bm
+    specv += bv
+    stats["brace"] = bstats
+    for k_ in ("compared", "spec_eq_bash", "spec_ne_bash", "code_eq_bash", "code_ne_bash"):
+        svb[k_] += bsvb[k_]
+    svb["spec_blind_zero_pad"] = bsvb.get("spec_blind_zero_pad", 0)
+    svb["spec_disagreements_with_bash"] += bsvb["spec_disagreements_with_bash"]
     distinct = {(c.text, repr(c.ifs), repr(c.args), repr(c.vars)) for c in cases if len(c.word) > 1 or c.word[0][0] != "T"}
     notes = []
     if svb["spec_ne_bash"]:
         notes.append("the specification disagrees with bash on %d cases (see spec_vs_bash.spec_disagreements_with_bash): "
                      "to be repaired in the specification" % svb["spec_ne_bash"])
     return {
-        "evaluations": len(cases),
-        "distinct_nontrivial": len(distinct),
-        "rule": "random words of 1-4 pieces (text with glob characters, '..', $'..', \"..\" with nested pieces, tilde, "
+        "evaluations": len(cases) + bstats["cases"],
+        "distinct_nontrivial": len(distinct) + bstats["expanding"],
+        "rule": "brace words (lists, sequences with step, nesting, empty alternatives, quoted alternatives, non-expanding forms; "
+                "counted non-trivial when the text actually expands) and random words of 1-4 pieces (text with glob characters, '..', $'..', \"..\" with nested pieces, tilde, "
                 "$v ${v} $N $@ $* ${a[@]} ${a[*]} ${a[i]} $#, ${p:-w} ${p-w} ${p:+w} ${p+w} ${#p}, $(cmd) `cmd`, $((e)), \\c) over "
                 "environments with empty, blank-padded, multi-field and glob-like values, positional lists of 0-3, arrays of 0-3, "
                 "IFS in {unset, default, ' ', newline, tab, ' \\n', empty}, three directory trees, nullglob/failglob/dotglob/noglob/extglob; "
